@@ -93,11 +93,15 @@ var kinds = []kindSpec{
 			params = append(params, fmt.Sprintf("p%d %s", i, typ))
 			args = append(args, c.init)
 		}
-		return fmt.Sprintf("package main\nimport \"x\"\nfunc main() {\n\tn := 1\n\t%s\n\tfor i := 0; i < %d; i++ {\n\t\tdefer func(%s) {}(%s)\n\t\tx.Probe()\n\t}\n\tprintln(%s)\n}\n", decl, d, strings.Join(params, ", "), strings.Join(args, ", "), use)
+		return fmt.Sprintf("package main\nimport \"x\"\nfunc main() {\n\tn := 1\n\t_ = n\n\t%s\n\tfor i := 0; i < %d; i++ {\n\t\tdefer func(%s) {}(%s)\n\t\tx.Probe()\n\t}\n\tprintln(%s)\n}\n", decl, d, strings.Join(params, ", "), strings.Join(args, ", "), use)
 	}},
 	{"go statement at depth", false, func(c classSpec, e, d int) string {
 		decl, use := locals(c, e)
 		return fmt.Sprintf("package main\nimport \"x\"\nfunc g(a int, b float64, c string, d []int) {}\nfunc f(n int) int {\n\t%s\n\tx.Probe()\n\tif n == 0 {\n\t\tgo g(1, 2.5, \"x\", nil)\n\t\treturn 0\n\t}\n\tr := f(n - 1)\n\treturn r + %s\n}\nfunc main() { println(f(%d)) }\n", decl, use, d)
+	}},
+	{"imported macro call", true, func(c classSpec, e, d int) string {
+		decl, use := locals(c, e)
+		return fmt.Sprintf("{%% import \"m.html\" %%}{{ M(%d) }}\x00{%% macro M(n int) %%}{%% %s %%}{%% probe() %%}{%% if n > 0 %%}{{ M(n - 1) }}{%% end %%}{{ %s }}{%% end %%}", d, decl, use)
 	}},
 	{"macro call", true, func(c classSpec, e, d int) string {
 		decl, use := locals(c, e)
@@ -135,6 +139,9 @@ func boundaryCases(c *hx.Ctx) error {
 				probes = probes[:0]
 				name := fmt.Sprintf("boundary %s %s e%d d%d", kind.name, cl.name, e, depth)
 				cs := Case{Name: name, Src: src, Tmpl: kind.tmpl}
+				if i := strings.IndexByte(src, 0); i >= 0 { // index.html NUL m.html
+					cs.Src, cs.Extra = src[:i], map[string]string{"m.html": src[i+1:]}
+				}
 				if kind.tmpl {
 					cs.Vars = map[string]any{"probe": func() { recordProbe() }}
 				}
@@ -184,6 +191,9 @@ func boundaryCases(c *hx.Ctx) error {
 		c.Res.Histogram["boundary growth-steps: "+key] = st.growths
 		c.Res.Histogram["boundary exactly-at-top (fp+NumReg == len): "+key] = st.exact
 		c.Res.Histogram["boundary min-distance (fp+NumReg - len): "+key] = st.minDist
+		if st.exact == 0 {
+			c.Res.Notes = appendNote(c.Res.Notes, "boundary fp+NumReg == len not reached exactly for "+key)
+		}
 	}
 	c.Res.Histogram["boundary go-statement with fp+127 beyond a stack"] = beyond
 	return nil
